@@ -267,4 +267,39 @@ theorem no_infinite_runG {step : St → Tid → Ev → Option St} {Good : St →
   rw [show N + (k + 1) = N + k + 1 by omega]
   omega
 
+/-! ## Relational form
+
+For components whose model lets a thread repeat idle steps at will (a spin loop whose exit depends on other
+threads, redundant loads of a weakest-discipline model): the steps that must lower the rank are described by a
+relation `Lib s t e s'` (e.g. "not an environment event and the thread's pc changes"); nothing is required of
+the other steps.  An execution all of whose steps from some point on are `Lib` steps cannot be infinite. -/
+
+structure RankedRel (step : St → Tid → Ev → Option St) (Good : St → Prop)
+    (Lib : St → Tid → Ev → St → Prop) (μ : St → Tid → Nat) : Prop where
+  good : ∀ s t e s', Good s → step s t e = some s' → Lib s t e s' → Good s'
+  dec : ∀ s t e s', Good s → step s t e = some s' → Lib s t e s' → μ s' t < μ s t
+  frame : ∀ s t e s' u, Good s → step s t e = some s' → Lib s t e s' → u ≠ t → μ s' u ≤ μ s u
+
+theorem no_infinite_run_rel {step : St → Tid → Ev → Option St} {Good : St → Prop}
+    {Lib : St → Tid → Ev → St → Prop} {μ : St → Tid → Nat} (R : RankedRel step Good Lib μ)
+    (ts : List Tid) (hnd : ts.Nodup) (x : Exec step) (N : Nat) (hg : Good (x.σ N))
+    (hts : ∀ n, N ≤ n → x.who n ∈ ts)
+    (hlib : ∀ n, N ≤ n → Lib (x.σ n) (x.who n) (x.ev n) (x.σ (n + 1))) : False := by
+  have hgood : ∀ k, Good (x.σ (N + k)) := by
+    intro k
+    induction k with
+    | zero => exact hg
+    | succ k ih => exact R.good _ _ _ _ ih (x.ok (N + k)) (hlib _ (by omega))
+  apply no_lex_descent (fun k => total μ ts (x.σ (N + k))) (fun _ => 0)
+  intro k
+  left
+  have hstep := x.ok (N + k)
+  have hl := hlib (N + k) (by omega)
+  have hmem := hts (N + k) (by omega)
+  have hT := total_step μ ts hnd _ _ _ hmem (fun u hu => R.frame _ _ _ _ u (hgood k) hstep hl hu)
+  have hd := R.dec _ _ _ _ (hgood k) hstep hl
+  show total μ ts (x.σ (N + (k + 1))) < _
+  rw [show N + (k + 1) = N + k + 1 by omega]
+  omega
+
 end ConcVerif.Live
